@@ -8,7 +8,8 @@ from concurrent.futures import ThreadPoolExecutor
 from .. import core, hist, directed, proj
 
 def base_project():
-    mods = [{"name": "lib", "sources": ["lib.c"]}, {"name": "opt", "sources": ["opt.c"]}]
+    mods = [{"name": "lib", "sources": ["lib.c"], "env": {"global": {"CFLAGS": ["-Dlib"]}}},
+            {"name": "opt", "sources": ["opt.c"], "env": {"global": {"CFLAGS": ["-Dopt"]}}}]
     apps = [{"name": "a1", "sources": ["main.c"], "selects": ["lib"]}, {"name": "a2", "sources": ["m2.c"]},
             {"name": "a3", "sources": ["m3.c"], "selects": ["?opt"]}]
     return directed.base(mods, apps, builders=[{"name": "b0"}, {"name": "b1", "env": {"X": "bx"}}, {"name": "b2", "env": {"X": "b2"}}])
@@ -38,6 +39,9 @@ def directed_histories():
         H("partition, narrower selection", [R({"partition": (1, 2)}), R({"builders": ["b1"], "partition": (1, 2)})]),
         H("partition changed", [R({"partition": (1, 2)}), R({"partition": (2, 2)})]),
         H("select changed", [R({}), R({"select": ["opt"]}), R({})]),
+        H("select order changed", [R({"select": ["opt", "lib"]}), R({"select": ["lib", "opt"]})]),
+        H("disable order changed", [R({"disable": ["opt", "lib"]}), R({"disable": ["lib", "opt"]})]),
+        H("select repeated", [R({"select": ["opt"]}), R({"select": ["opt", "opt"]})]),
         H("disable changed", [R({}), R({"disable": ["lib"]}), R({})]),
         H("file edited", [R({}), E(t2), R({})]),
         H("file edited and reverted", [R({}), E(t2), E(t1), R({})]),
